@@ -235,6 +235,11 @@ def run():
                  dict(target="gauss4", kernel="tpcn", clustering=True, mode="blobs", N=40, n_total=120, cluster_every=2)]
     nseeds = ck.pick(2, 8)
     tasks = []
+    # more than 1024 particles through the vectorised likelihood (block-wise evaluation paths): results as for pointwise evaluation,
+    # and every point the likelihood receives is counted exactly once
+    bigcfg = dict(target="gauss2", kernel="tpcn", clustering=False, mode="scalar", N=1100, n_total=2200)
+    for r in range(ck.pick(1, 3)):
+        tasks.append(("tvf.checks.c13:group", dict(cfg=dict(bigcfg, N=[1100, 2049, 1025][r]), seed=ck.subseed("big", r) % 10 ** 6, schedules=["vec", "vec-ro", "scalar"]), None))
     for ci, cfg in enumerate(cfgs):
         for r in range(nseeds):
             sch = SCHEDULES if (r == 0 or not ck.quick or cfg.get("like_args")) else SCHEDULES[:12]
